@@ -609,6 +609,14 @@ func coordinate(chk *Check, tier string, seed int64, binDir, cocaBin string) int
 	}
 	logDir, _ := ioutil.TempDir("", "vflog-"+strings.ToLower(chk.ID)+"-")
 	defer os.RemoveAll(logDir)
+	// everything the workers and the commands they start put into a temporary directory (scratch trees of cases,
+	// coca's profile*/ directories, single-case files) lives below one directory that this run removes when it ends,
+	// also when a worker died or was killed by its watchdog
+	runTmp, rerr := ioutil.TempDir("", "vfrun-"+strings.ToLower(chk.ID)+"-")
+	if rerr == nil {
+		defer os.RemoveAll(runTmp)
+		os.Setenv("TMPDIR", runTmp)
+	}
 
 	agg := &Aggregate{Check: chk, Tier: tier, Seed: seed, Counters: map[string]int{}, Sets: map[string]map[string]bool{},
 		Shapes: map[string]bool{}, Inconclusive: map[string]int{}, Extra: map[string]interface{}{}, BinDir: binDir, CocaBin: cocaBin}
